@@ -74,6 +74,13 @@ package rules
 //   obligation of the wrapper). Variants: W1 flag struct, W2 lookupMutex helper, W3 closure in a local + package-level
 //   wrapper — silent; mutants on the new shapes r6m1-3, r7m1-4, r8m1-6, W1m/n/o, W3m — all reported (W3n, a wrapper
 //   running the closure twice, is undecided).
+// Round-4 seeded changes g/h (slips inside honest refactorings): a lock function that returns an error holds the lock
+//   only once its result is known to be nil (no lock assumed while the result is unchecked, or if it is dropped); new
+//   obligation R-C18-3 `F|Unlock only with the lock held` (g: `defer s.Unlock()` placed before the `if err != nil`);
+//   Server.Lock's own check accepts `return mutex.Lock()`; decorator role (`locked(h)` returns a closure running h once
+//   under the lock) + entry lock context: a function is entered with the lock held iff EVERY value use of it is the
+//   decorated argument of such a decorator (h: DELETE entry left bare → violation at deleteObject naming the registration
+//   site). Correct variants /tmp/vw/C18/out/{g,h}-correct.diff silent; mutants g1-g4, h1-h4 reported; g5, h5 silent.
 // Behaviour-preserving edits that stay silent (exit unchanged): P1 renamed locals + `nil != err || p` + `return err`;
 // P2 Lock without named result (`done` flag, explicit `return e`); P3 Unlock with the etcd error in a local and explicit
 // order; P4 `return m.m.Lock(ctx)` with recover-and-repanic closure; P5 double-checked RWMutex table; P6 sync.Map
